@@ -67,6 +67,9 @@ func userCodeCall(info *types.Info, call *ast.CallExpr, binds map[types.Object]*
 		if binds[info.Uses[f]] != nil {
 			return "", false
 		}
+		if paramAlwaysRepoFunc(info.Uses[f]) {
+			return "", false // a callback parameter of a private function that only ever receives the repository's own literals/functions
+		}
 	}
 	return "call through function value " + exprStr(fun), true
 }
@@ -723,4 +726,77 @@ func watcherOf(w *World, info *types.Info, g *ast.GoStmt) (ctxExpr, scopeExpr as
 		}
 	}
 	return
+}
+
+var paramOwner map[types.Object]struct {
+	fi  *FuncInfo
+	idx int
+}
+
+// paramAlwaysRepoFunc: o is a function-typed parameter of an unexported
+// repository function every call site of which passes a function literal or a
+// function declared in the repository (never a value that came from a caller of
+// the library).
+func paramAlwaysRepoFunc(o types.Object) bool {
+	w := theWorld
+	if w == nil || o == nil {
+		return false
+	}
+	if paramOwner == nil || len(paramOwner) == 0 {
+		paramOwner = map[types.Object]struct {
+			fi  *FuncInfo
+			idx int
+		}{}
+		for _, fi := range w.Decls {
+			i := 0
+			for _, f := range fi.Decl.Type.Params.List {
+				for _, nm := range f.Names {
+					if po := fi.Pkg.TypesInfo.Defs[nm]; po != nil {
+						paramOwner[po] = struct {
+							fi  *FuncInfo
+							idx int
+						}{fi, i}
+					}
+					i++
+				}
+			}
+		}
+	}
+	own, ok := paramOwner[o]
+	if !ok || own.fi.Obj.Exported() {
+		return false
+	}
+	callers := w.Callers()[own.fi]
+	if len(callers) == 0 {
+		return false
+	}
+	sites := 0
+	for c := range callers {
+		cinfo := c.Pkg.TypesInfo
+		for _, call := range callsIn(c.Decl.Body, true) {
+			if callee(cinfo, call) != own.fi.Obj {
+				continue
+			}
+			sites++
+			if own.idx >= len(call.Args) {
+				return false
+			}
+			a := unparen(call.Args[own.idx])
+			if _, isLit := a.(*ast.FuncLit); isLit {
+				continue
+			}
+			var fo types.Object
+			switch x := a.(type) {
+			case *ast.Ident:
+				fo = cinfo.Uses[x]
+			case *ast.SelectorExpr:
+				fo = cinfo.Uses[x.Sel]
+			}
+			if fn, isFn := fo.(*types.Func); isFn && w.Decls[fn] != nil {
+				continue
+			}
+			return false
+		}
+	}
+	return sites > 0
 }
